@@ -196,6 +196,28 @@ theorem blacklist_stores_addresses (s s' : BState) (signer : Nat) (addrs : List 
     simp only [List.mem_eraseDups]
     exact List.mem_map_of_mem ha
 
+theorem blKey_sameEthAddr {a b : String} (h : blKey a = blKey b) : sameEthAddr a b = true := by
+  unfold blKey at h
+  unfold sameEthAddr
+  cases ha : ethAddr a <;> cases hb : ethAddr b <;> simp only [ha, hb] at h ⊢
+  · simpa using h
+  · cases h
+  · cases h
+  · simpa using h
+
+/-- …stated on what an observer reads back (`chk blset`): whatever strings the store holds for the model's keys,
+    every address of an accepted `MsgSetBlacklist` is denoted by one of them. -/
+theorem blacklist_set_observed (s s' : BState) (signer : Nat) (addrs stored : List String)
+    (h : setBlacklist s signer addrs = .ok s') (hst : stored.map blKey = s'.blacklist) :
+    blSetOK addrs stored = true := by
+  unfold blSetOK addrBlacklisted
+  simp only [List.all_eq_true, List.any_eq_true]
+  intro a ha
+  have hm := blacklist_stores_addresses s s' signer addrs a h ha
+  rw [← hst] at hm
+  obtain ⟨b, hb, hk⟩ := List.mem_map.mp hm
+  exact ⟨b, hb, blKey_sameEthAddr hk⟩
+
 /-- non-vacuity: the EIP-55 spelling is blacklisted, the lower-case un-prefixed spelling is the same address -/
 example : sameEthAddr "0xf17f52151EbEF6C7334FAD080c5704D77216b732" "f17f52151ebef6c7334fad080c5704d77216b732" = true := by decide
 
